@@ -341,6 +341,8 @@ def fault_sites(doc, rng=None, max_targets=None):
     ("cset", (acf,i), k, target|None)        matrix coefficient k inputChannelFormat
     ("avs", addr, op)                        alternativeValueSet references: drop / dup / foreign
     ("prog", p|None|"foreign") ("sel", [object indices])   call arguments
+    ("order", kind, k)                       not a fault: declaration-order variant, the element list of that kind is
+                                             reversed (k = -1) or shuffled with seed k (see order_variants)
     """
     adm = doc.adm
     n = {k: len(getattr(adm, LISTS[k])) for k in KINDS}
@@ -446,6 +448,28 @@ def fault_sites(doc, rng=None, max_targets=None):
     return out
 
 
+# element lists whose declaration order may be permuted (programmes are not: the model takes "lowest id" to be
+# the first programme, which generate_ids guarantees only for the original order)
+ORDER_KINDS = ("ac", "ao", "apf", "acf", "asf", "atf", "atu")
+
+
+def order_variants(doc, rng=None):
+    """declaration-order variants worth trying for this document: reversed pack list (sub-pack before parent,
+    decode before/after encode pack), reversed channel list, and (with rng) one random shuffle"""
+    out = []
+    if len(doc.adm.audioPackFormats) > 1:
+        out.append(("order", "apf", -1))
+    if len(doc.adm.audioChannelFormats) > 1:
+        out.append(("order", "acf", -1))
+    if len(doc.adm.audioObjects) > 1:
+        out.append(("order", "ao", -1))
+    if rng is not None:
+        kind = rng.choice(ORDER_KINDS)
+        if len(getattr(doc.adm, LISTS[kind])) > 1:
+            out.append(("order", kind, rng.randrange(1000)))
+    return out
+
+
 def fault_kind(f):
     """Coarse fault kind for the evidence distribution."""
     op = f[0]
@@ -475,6 +499,8 @@ def fault_kind(f):
         return "matrix-ref-remove" if f[-1] is None else "matrix-ref-retarget"
     if op == "avs":
         return "avs-ref"
+    if op == "order":
+        return "declaration-order"
     return "call-" + op
 
 
@@ -500,6 +526,8 @@ def site_kind(f):
         return "coefficient.inputChannelFormat"
     if op == "avs":
         return "%s.alternativeValueSets" % f[1][0]
+    if op == "order":
+        return "adm.%s-list" % f[1]
     return op
 
 
@@ -603,6 +631,19 @@ def apply_fault(doc, f):
                 if ai >= len(avss):
                     return False
                 e.alternativeValueSets.append(avss[ai])
+        elif op == "order":
+            import random
+            lst = getattr(adm, LISTS[f[1]])
+            n = len(lst)
+            perm = list(range(n))
+            if f[2] == -1:
+                perm.reverse()
+            else:
+                random.Random(f[2]).shuffle(perm)
+            lst[:] = [lst[i] for i in perm]
+            if f[1] == "ao":  # selected complementary objects are given by position
+                inv = {old: new for new, old in enumerate(perm)}
+                doc.sel = [inv[i] for i in doc.sel]
         elif op == "prog":
             doc.prog = f[1]
         elif op == "sel":
